@@ -75,7 +75,8 @@ def _(c):
     c.local("lso", Opt(FIELD))
     c.local("aborted_transactions", Opt(FIELD))
     c.owns("self._client", "self._subscriptions")
-    c.requires("0 <= self._default_reset_strategy", "reset-policy-is-a-strategy-constant", )
+    c.requires("self._default_reset_strategy == OffsetResetStrategy.LATEST or self._default_reset_strategy == OffsetResetStrategy.EARLIEST"
+               " or self._default_reset_strategy == OffsetResetStrategy.NONE", "reset-policy-is-a-strategy-constant")
     c.call("self._client.send", returns=Ref("FetchResponse"), havoc_all=True, raises=["KafkaError", "CancelledError"],
            post=["fresh(result)", "0 <= result.API_VERSION <= 11", WF_RESP],
            note="AIOKafkaClient.send: suspends; returns the decoded FetchResponse of the negotiated version, whose "
